@@ -61,6 +61,8 @@ impl FlushWorker {
         while let Some((segment_id, memtable, registry, passive_memtable, flush_id, completion)) =
             rx.recv().await
         {
+            #[cfg(feature = "verif")]
+            crate::verif::gate("flush.queued", self.shard_id, segment_id).await;
             let inflight_guard = self.inflight_segments.guard(format!("{:05}", segment_id));
             let segment_dir = SegmentId::from(segment_id as u32).join_dir(&self.base_dir);
             let shard_id = self.shard_id;
@@ -90,6 +92,9 @@ impl FlushWorker {
                         .register_flush(segment_id, Arc::clone(&passive_memtable))
                         .await;
                 }
+
+                #[cfg(feature = "verif")]
+                crate::verif::gate("flush.registered", shard_id, segment_id).await;
 
                 let flusher = Flusher::new(
                     memtable,
@@ -133,6 +138,9 @@ impl FlushWorker {
                             );
                         }
 
+                        #[cfg(feature = "verif")]
+                        crate::verif::gate("flush.written", shard_id, segment_id).await;
+
                         // Mark as written to disk
                         if track_lifecycle {
                             lifecycle.mark_written(segment_id).await;
@@ -158,6 +166,9 @@ impl FlushWorker {
                             return flush_result;
                         }
 
+                        #[cfg(feature = "verif")]
+                        crate::verif::gate("flush.verified", shard_id, segment_id).await;
+
                         // Only update segment_ids after successful verification
                         let segment_name = format!("{:05}", segment_id);
                         {
@@ -175,6 +186,9 @@ impl FlushWorker {
                                 }
                             }
                         }
+
+                        #[cfg(feature = "verif")]
+                        crate::verif::gate("flush.published", shard_id, segment_id).await;
 
                         // Mark as verified and clear passive buffer
                         if track_lifecycle {
@@ -205,6 +219,9 @@ impl FlushWorker {
                         // Note: Passive buffer is now empty and will be filtered out by
                         // PassiveBufferSet::non_empty() in subsequent queries
 
+                        #[cfg(feature = "verif")]
+                        crate::verif::gate("flush.passive_cleared", shard_id, segment_id).await;
+
                         // Clean up WAL files
                         if tracing::enabled!(tracing::Level::DEBUG) {
                             debug!(
@@ -216,6 +233,8 @@ impl FlushWorker {
                         }
                         let cleaner = WalCleaner::new(shard_id);
                         cleaner.cleanup_up_to(segment_id + 1);
+                        #[cfg(feature = "verif")]
+                        crate::verif::gate("flush.wal_cleaned", shard_id, segment_id).await;
                     }
                 }
 
@@ -240,6 +259,9 @@ impl FlushWorker {
                     ))
                 }
             };
+
+            #[cfg(feature = "verif")]
+            crate::verif::gate("flush.task_done", self.shard_id, segment_id).await;
 
             self.flush_progress.mark_completed(flush_id);
 
